@@ -95,13 +95,15 @@ fn c08_acc_take() {
     assert!(r.as_u128() == red(v0));
 }
 
-/// array accumulator, N = 2: every lane behaves as the scalar accumulator
+/// array accumulator, N = 2, value part: every lane behaves as the scalar accumulator. The precondition is only
+/// "the next product fits" (value <= u128::MAX - (P-1)^2, a constant), which the invariant implies.
 #[kani::proof]
 #[kani::unwind(3)]
 #[kani::solver(z3)]
 fn c08_acc_array2_step() {
+    const ROOM: u128 = u128::MAX - (P - 1) * (P - 1);
     let mut acc = AccArr2 { value: kani::any(), count: kani::any(), phantom_data: PhantomData };
-    kani::assume(acc.count < INTERVAL && acc.value[0] <= bound(acc.count) && acc.value[1] <= bound(acc.count));
+    kani::assume(acc.count < INTERVAL && acc.value[0] <= ROOM && acc.value[1] <= ROOM);
     let (v0, c0) = (acc.value, acc.count);
     let a: [Fp61BitPrime; 2] = [kani::any(), kani::any()];
     let b: [Fp61BitPrime; 2] = [kani::any(), kani::any()];
@@ -112,10 +114,26 @@ fn c08_acc_array2_step() {
     let s1 = v0[1] + a[1].as_u128() * b[1].as_u128();
     if c0 + 1 < INTERVAL {
         assert!(acc.count == c0 + 1 && acc.value[0] == s0 && acc.value[1] == s1);
-        assert!(acc.value[0] <= bound(acc.count) && acc.value[1] <= bound(acc.count));
     } else {
         assert!(acc.count == 0 && acc.value[0] == red(s0) && acc.value[1] == red(s1));
     }
+}
+
+/// array accumulator, N = 2, bound part: the step preserves count < 64 and value[k] <= (P-1) + count*(P-1)^2
+/// in both lanes (so the u128 additions can never overflow within an interval)
+#[kani::proof]
+#[kani::unwind(3)]
+#[kani::stub_verified(Fp61BitPrime::modulo_prime_u128)]
+fn c08_acc_array2_bound() {
+    let mut acc = AccArr2 { value: kani::any(), count: kani::any(), phantom_data: PhantomData };
+    kani::assume(acc.count < INTERVAL && acc.value[0] <= bound(acc.count) && acc.value[1] <= bound(acc.count));
+    let a: [Fp61BitPrime; 2] = [kani::any(), kani::any()];
+    let b: [Fp61BitPrime; 2] = [kani::any(), kani::any()];
+    kani::cover!(acc.count == INTERVAL - 1);
+    kani::cover!(acc.count == 0);
+    MultiplyAccumulatorArray::multiply_accumulate(&mut acc, &a, &b);
+    assert!(acc.count < INTERVAL);
+    assert!(acc.value[0] <= bound(acc.count) && acc.value[1] <= bound(acc.count));
 }
 
 /// array take(), N = 2: lane i is the reduction of exactly value[i]
